@@ -222,8 +222,8 @@ theorem generated_constellation_matches_model :
     constructor <;> ring
   · intro L hL
     have h1 : 1 ≤ L * L := by nlinarith
-    simp only [Generated.C01.qamAvgEnergy]
-    rw [Nat.cast_sub h1]
+    -- (`ring` absorbs a re-ordered spelling of the same product, e.g. `2.0 * (M - 1) / 3.0`)
+    (simp only [Generated.C01.qamAvgEnergy]; rw [Nat.cast_sub h1]) <;> ring
   · intro M k φ
     simp only [pskNaturalPoint, Generated.C01.pskPhase, Trig.cos, Trig.sin, Trig.pi]
 
